@@ -55,7 +55,13 @@ type desc struct {
 	Anames [][]int  `json:"anames"`
 	Expect *expect  `json:"expect,omitempty"`
 	Big    bool     `json:"big,omitempty"`
+	// read-buffer geometry corpora: fixed-width lines; Width = bytes per line incl. the terminator (0 = not geometric)
+	Width int    `json:"width,omitempty"`
+	Eol   string `json:"eol,omitempty"` // "" / "lf": lines end in LF; "crlf": in CR LF (the scanner drops the CR)
 }
+
+// the pipeline reads through a 128 KiB buffer (readahead / batchers ReadAheadBufferSize)
+const readBuf = 131072
 
 func (d *desc) orderFree() bool {
 	for _, a := range d.Acc {
@@ -78,6 +84,7 @@ func c03Gen(args []string) error {
 	fs := flag.NewFlagSet("gen", flag.ExitOnError)
 	out := fs.String("out", "desc.ndjson", "")
 	n := fs.Int("n", 7, "descriptors")
+	ngeom := fs.Int("geom", 0, "read-buffer geometry descriptors")
 	minLines := fs.Int("min", 1000, "")
 	maxLines := fs.Int("max", 10000, "")
 	fs.Parse(args)
@@ -88,6 +95,7 @@ func c03Gen(args []string) error {
 	}
 	defer w.Close()
 	cmds := cmdFamily()
+	genGeom(w, *ngeom)
 	for i := 0; i < *n; i++ {
 		cd := cmds[i%len(cmds)]
 		d := cd
@@ -142,6 +150,73 @@ func c03Gen(args []string) error {
 		w.Write(d)
 	}
 	return nil
+}
+
+// genGeom: corpora whose line ends fall exactly on the ends of the 128 KiB read buffer: fixed-width lines
+// whose width divides 131072, more than three buffers of them, keys cyclic over a few hundred values with
+// unequal per-key counts and varying increments (so a line or key that is overwritten, lost or duplicated
+// changes the aggregate); the same with the first line one byte longer (no line end on a buffer end any more)
+// and with CR LF terminators.
+func genGeom(w *vh.NdWriter, n int) {
+	type gshape struct {
+		width int
+		eol   string
+		shift bool
+		cmd   int
+	}
+	mk := func(cmd string, ext []int) desc {
+		return desc{Cmd: cmd, Ext: ext, Iv: []int{}, Acc: []string{}, Gname: vh.BS("k"), Anames: [][]int{}}
+	}
+	cmds := []desc{mk("histogram", []int{1}), mk("table", []int{1, 2, 3}), mk("histogram", []int{1, 3}),
+		mk("bargraph", []int{1, 2, 3}), mk("heatmap", []int{2, 1})}
+	widths := []int{16, 64, 32, 8}
+	rot := int(vh.Seed()) % len(widths)
+	var shapes []gshape
+	for round := 0; len(shapes) < n; round++ {
+		wd := widths[(round+rot)%len(widths)]
+		wd2 := widths[(round+rot+1)%len(widths)]
+		shapes = append(shapes,
+			gshape{wd, "lf", false, round % len(cmds)},
+			gshape{wd2, "crlf", false, (round + 1) % len(cmds)},
+			gshape{wd, "lf", true, round % len(cmds)})
+	}
+	for _, g := range shapes[:n] {
+		if g.eol == "crlf" && g.width == 8 {
+			g.eol = "lf" // 6 bytes of content cannot hold key|sub|inc with a two digit key
+		}
+		d := cmds[g.cmd]
+		d.Big, d.Width, d.Eol = true, g.width, g.eol
+		content := g.width - 1
+		if g.eol == "crlf" {
+			content = g.width - 2
+		}
+		// a little more than three buffers
+		nlines := (3*readBuf + readBuf/5) / g.width
+		K, kd := 251, 3
+		if content < 12 {
+			K, kd = 97, 2
+		}
+		pool := map[string]int{}
+		d.Pool, d.Seq = nil, make([]int, 0, nlines)
+		for i := 0; i < nlines; i++ {
+			key := fmt.Sprintf("k%0*d", kd, (i*i+i/7)%K)
+			inc := fmt.Sprint(1 + i%9)
+			padn := content - len(key) - len(inc) - 2
+			if i == 0 && g.shift {
+				padn++
+			}
+			sub := string("xyz"[i%3]) + strings.Repeat("p", padn-1)
+			line := key + "|" + sub + "|" + inc
+			ix, ok := pool[line]
+			if !ok {
+				d.Pool = append(d.Pool, vh.BS(line))
+				ix = len(d.Pool)
+				pool[line] = ix
+			}
+			d.Seq = append(d.Seq, ix)
+		}
+		w.Write(d)
+	}
 }
 
 func isWord(s string) bool {
@@ -261,7 +336,49 @@ func cmdArgs(d *desc, kind string) []string {
 	return a
 }
 
+// geometry corpora: one file, gzip, stdin, and two-file splits at a buffer end / away from it
+func geomVariants(rng *rand.Rand, d *desc, nv int) []variant {
+	n := len(d.Seq)
+	tune := func(v variant) variant {
+		v.Workers = []int{1, 2, 8}[rng.Intn(3)]
+		v.Batch = []int{7, 1000}[rng.Intn(2)]
+		v.BatchBuf = []int{1, 3}[rng.Intn(2)]
+		v.Readers = []int{1, 3}[rng.Intn(2)]
+		v.Procs = []int{1, 4, 16}[rng.Intn(3)]
+		return v
+	}
+	whole := [][2]int{{1, n}}
+	perBuf := readBuf / d.Width
+	split := func(at int, k1, k2 string, swap bool) variant {
+		v := variant{Ranges: [][2]int{{1, at}, {at + 1, n}}, Kinds: []string{k1, k2}}
+		if swap {
+			v.Ranges[0], v.Ranges[1] = v.Ranges[1], v.Ranges[0]
+			v.Kinds[0], v.Kinds[1] = v.Kinds[1], v.Kinds[0]
+		}
+		return tune(v)
+	}
+	vs := []variant{
+		{Ranges: whole, Kinds: []string{"plain"}, Workers: 1, Batch: 1000, BatchBuf: 1, Readers: 1, Procs: 1},
+		split(perBuf/2+rng.Intn(perBuf/4), "plain", "plain", false), // no line end on a buffer end in either file
+		tune(variant{Ranges: whole, Kinds: []string{"plain"}, Stdin: true}),
+		tune(variant{Ranges: whole, Kinds: []string{"gzip"}}),
+		split(perBuf, "plain", "gzip", true),          // first file is exactly one buffer
+		split(2*perBuf+1+rng.Intn(50), "gzip", "plain", false),
+		tune(variant{Ranges: whole, Kinds: []string{"plain"}}),
+	}
+	for len(vs) < nv {
+		vs = append(vs, split(1+rng.Intn(n-1), []string{"plain", "gzip"}[rng.Intn(2)], "plain", rng.Intn(2) == 0))
+	}
+	if nv < len(vs) {
+		vs = vs[:nv]
+	}
+	return vs
+}
+
 func variants(rng *rand.Rand, d *desc, nv int) []variant {
+	if d.Width > 0 {
+		return geomVariants(rng, d, nv)
+	}
 	n := len(d.Seq)
 	seqOnly := !d.orderFree()
 	whole := [][2]int{{1, n}}
@@ -342,6 +459,7 @@ func c03Run(args []string) error {
 	bin := fs.String("rare", "", "rare binary")
 	nv := fs.Int("variants", 3, "variants per descriptor")
 	nvBig := fs.Int("variants-big", 5, "variants per big descriptor")
+	nvGeom := fs.Int("variants-geom", 6, "variants per read-buffer geometry descriptor")
 	par := fs.Int("par", 6, "parallel descriptors")
 	work := fs.String("work", "", "scratch directory")
 	fs.Parse(args)
@@ -383,6 +501,9 @@ func c03Run(args []string) error {
 			n := *nv
 			if d.Big {
 				n = *nvBig
+				if d.Width > 0 {
+					n = *nvGeom
+				}
 			}
 			g := &groups[gi]
 			g.reset = M{"event": "reset", "t": gi + 1, "pool": d.Pool, "seq": d.Seq, "cmd": d.Cmd, "ext": d.Ext, "ig": d.Ig,
@@ -429,7 +550,7 @@ func c03Run(args []string) error {
 					}
 					rec := M{"event": "run", "kind": kind, "ranges": rs, "kinds": v.Kinds, "stdin": v.Stdin, "missing": v.Missing,
 						"readers": v.Readers, "workers": v.Workers, "batch": v.Batch, "bbuf": v.BatchBuf, "gomaxprocs": v.Procs,
-						"exit": code, "msg": msg, "stdout": vh.B(stdout), "argv": argv, "stderr": serr}
+						"exit": code, "msg": msg, "stdout": vh.B(stdout), "argv": argv, "stderr": serr, "eol": d.Eol, "width": d.Width}
 					g.runs = append(g.runs, rec)
 					if d.Expect != nil && (d.orderFree() || (v.Workers == 1 && v.Readers == 1)) {
 						g.b1++
@@ -477,6 +598,9 @@ func lineBytes(d *desc, lo, hi int) []byte {
 	var b bytes.Buffer
 	for i := lo; i <= hi; i++ {
 		b.Write(vh.FromInts(d.Pool[d.Seq[i-1]-1]))
+		if d.Eol == "crlf" {
+			b.WriteByte('\r')
+		}
 		b.WriteByte('\n')
 	}
 	return b.Bytes()
